@@ -75,6 +75,22 @@ pub enum RejectionReason {
     KeyAlreadyExists,
 }
 
+#[cfg(cached_verif)]
+impl<Key, Value> CommandType<Key, Value>
+    where Key: Hash + Eq + Clone {
+    /// [kind, key id, weight, time to live in seconds (-1: none), time to live subsecond nanoseconds]
+    pub(crate) fn verif_fields(&self) -> [i64; 5] {
+        match self {
+            CommandType::Put(key_description, _) => [1, key_description.id as i64, key_description.weight, -1, 0],
+            CommandType::PutWithTTL(key_description, _, ttl) =>
+                [2, key_description.id as i64, key_description.weight, ttl.as_secs().min(i64::MAX as u64) as i64, ttl.subsec_nanos() as i64],
+            CommandType::Delete(_) => [3, 0, 0, -1, 0],
+            CommandType::UpdateWeight(key_id, weight) => [4, *key_id as i64, *weight, -1, 0],
+            CommandType::Shutdown => [5, 0, 0, -1, 0],
+        }
+    }
+}
+
 #[cfg(test)]
 mod tests {
     use std::time::Duration;
